@@ -189,7 +189,7 @@ func genC13(repo string) (map[string]string, error) {
 	}
 
 	var b strings.Builder
-	b.WriteString("From Coq Require Import List NArith.\nImport ListNotations.\nOpen Scope N_scope.\n\n")
+	b.WriteString("From Coq Require Import List NArith.\nImport ListNotations.\nLocal Open Scope N_scope.\n\n")
 	b.WriteString("(* analysis/facts/nilness/nilness.go: Nilness constants (0 = no information, the lattice identity) *)\n")
 	for _, name := range order {
 		fmt.Fprintf(&b, "Definition gen_%s : N := %d.\n", name, consts[name])
